@@ -52,8 +52,27 @@ def random_scripts(rng, n, fault_at=None, fault=None):
     return out
 
 
+HISTORY = {'other': None}
+
+
 def make(Model, spec, scripts, tol):
-    m = Model(spec.make(), tol=tol, X=1.0)
+    other = HISTORY['other']
+    if other is not None:
+        # reach the span under test through label look-ups and a solve on a shifted span, then reindex()
+        m = Model(other.make(), tol=tol, X=1.0)
+        for i in range(other.n):
+            lab = other.labels[i][0]
+            if lab is not None:
+                m['A', lab]
+        call(m.solve, failures='ignore', errors='ignore', max_iter=1)
+        m = m.reindex(spec.make())
+        m.__dict__['v_log'] = []
+        m.__dict__.pop('v_passvals', None)
+        m.status = '-'
+        m.iterations = -1
+        m.X = 1.0
+    else:
+        m = Model(spec.make(), tol=tol, X=1.0)
     m.__dict__['v_scripts_by_t'] = {k: list(v) for k, v in scripts.items()}
     for i in range(spec.n):
         m.A[i] = 0.25 * i
@@ -140,10 +159,18 @@ def run_shard(ctx):
     lens = ctx.pick([3, 4, 5], [2, 3, 4, 5, 6, 7])
     si = 0
     for n in lens:
+      for history in (False, True):
         for spec in spans.catalogue(n):
             si += 1
             if not ctx.mine(si):
                 continue
+            HISTORY['other'] = None
+            if history:
+                others = [o for o in spans.catalogue(n + 1, origin=2) + spans.catalogue(max(n - 1, 1), origin=-1) if o.kind == spec.kind]
+                if not others:
+                    continue
+                HISTORY['other'] = others[(si + ctx.seed) % len(others)]
+                ctx.count('reindexed_history_specs')
             ctx.seen('span_kinds', spec.kind)
             labels = [spec.labels[i] for i in range(n)]
             # ---- all (start, end) pairs, random scripts/options ----------------------------
@@ -220,6 +247,7 @@ def run_shard(ctx):
                             ctx.evaluation(case, nontrivial=True, sample=case)
                             ctx.count('faults_injected')
                             fault_case(ctx, Model, spec, scripts, opts, q, fault, case)
+    HISTORY['other'] = None
     empty_span(ctx, Model)
     parser_models(ctx)
 
